@@ -54,6 +54,37 @@ pub fn alphabet() -> Vec<Op> {
     ops
 }
 
+/// Stage (d): no argument value is special — every digit string of 1..=3 digits (leading zeros included) for put,
+/// fput and push, every digit at every position 0..=9, every shift 0..=12.
+pub fn sweep_alphabet() -> Vec<Op> {
+    let mut ops = vec![];
+    let mut strs: Vec<&'static [u8]> = vec![];
+    for len in 1..=3usize {
+        for n in 0..10u32.pow(len as u32) {
+            let s: &'static str = Box::leak(format!("{n:0len$}").into_boxed_str());
+            strs.push(s.as_bytes());
+        }
+    }
+    for d in &strs {
+        ops.push(Op::Put(d));
+    }
+    for d in &strs {
+        ops.push(Op::Fput(d));
+    }
+    for d in &strs {
+        ops.push(Op::Push(d));
+    }
+    for d in b'0'..=b'9' {
+        for p in 0..=9usize {
+            ops.push(Op::At(d, p));
+        }
+    }
+    for p in 0..=12usize {
+        ops.push(Op::Shift(p));
+    }
+    ops
+}
+
 fn apply(b: &mut DigitString, op: &Op) -> Result<(), ()> {
     match op {
         Op::Put(d) => b.put(d).map_err(|_| ()),
@@ -454,6 +485,37 @@ pub fn run(tier: Tier) -> i32 {
             ctx.report(&mut acc, Violation { lang: "-".into(), entry: "digit_ops".into(), input: format!("{name} repeated 70000 times on a new builder"), threshold: None, clause: "rendering is ASCII digits and len() equals its length; leading zeros are kept; push appends".into(), expected: "after i operations: i digits".into(), observed });
         }
     }
+    // ---- (d) argument sweep: from every state reached within 2 operations, every operation of the sweep alphabet
+    // (all 1-3 digit strings for put / fput / push, all digits x positions, all shifts), all invariants on the step
+    let mut ops2 = ops.clone();
+    let base_n = ops2.len();
+    ops2.extend(sweep_alphabet());
+    let sweep_results: Vec<Vec<(Vec<u8>, usize, Vec<(String, String, String)>)>> = starts
+        .par_iter()
+        .map(|(fp0, path0)| {
+            let mut out = vec![];
+            for oi in base_n..ops2.len() {
+                let r = step(&ops2, fp0, path0, oi);
+                if !r.viols.is_empty() {
+                    out.push((path0.clone(), oi, r.viols));
+                }
+            }
+            out
+        })
+        .collect();
+    for part in sweep_results {
+        for (path, oi, viols) in part {
+            for (clause, expected, observed) in viols {
+                let mut names: Vec<String> = path.iter().map(|&i| ops2[i as usize].name()).collect();
+                names.push(ops2[oi].name());
+                ctx.report(&mut acc, Violation { lang: "-".into(), entry: "digit_ops".into(), input: names.join("; "), threshold: None, clause, expected, observed });
+            }
+        }
+    }
+    let sweep_steps = (starts.len() * (ops2.len() - base_n)) as u64;
+    acc.transitions += sweep_steps;
+    acc.traces += sweep_steps;
+    acc.count("argument_sweep_steps", sweep_steps);
     chain_steps += (starts.len() * ops.len() * CHAIN) as u64;
     acc.transitions += chain_steps;
     acc.traces += chain_steps;
@@ -475,6 +537,7 @@ pub fn run(tier: Tier) -> i32 {
         "successors_beyond_length_bound": dropped_by_len,
         "queries_per_state": 5 + 10 + 4 + 36 + 1,
         "extra": "every state within 3 operations is reset and compared operation by operation with a new builder; from every state within 2 operations each operation is repeated 24 times",
+        "argument_sweep": "from every state within 2 operations: put / fput / push of every digit string of 1..=3 digits (leading zeros included), put_digit_at of every digit at every position 0..=9, shift(0..=12)",
     });
     ctx.finish(acc, cov, vec![
         "only ASCII digit arguments are fed; is_range_free's documented precondition start < end is honoured".into(),
@@ -485,7 +548,8 @@ pub fn run(tier: Tier) -> i32 {
 
 /// Re-execute an op list given by names (replay support).
 pub fn replay(input: &str) -> String {
-    let ops = alphabet();
+    let mut ops = alphabet();
+    ops.extend(sweep_alphabet());
     let mut b = DigitString::new();
     let mut log = vec![];
     for name in input.split("; ") {
